@@ -53,6 +53,18 @@ def run(tier, replay_path, t0):
             if h and h[-1].get("ev") in CRASH_OPS:
                 cexb.append(h)
         cases = [{"prefix": b[:-1], "op": b[-1], "modes": ["crash", "fail"]} for b in cexb + chosen]
+        # directed: the scan scenarios the statement names - a wallet restored from the phrase finds its outputs
+        # (one batch per restored output), and a wallet that cancelled a transaction which was mined after all is
+        # repaired (inputs spent, change restored); every boundary of the scan is a crash / failing-write point
+        _I = {"ev": "init_send", "w": "w1", "sl": "s1", "amt": 1000}
+        _pre = [_I, {"ev": "lock", "w": "w1", "sl": "s1", "stage": "S1"}, {"ev": "receive", "w": "w2", "sl": "s1"},
+                {"ev": "finalize", "w": "w1", "sl": "s1", "stage": "S2"}, {"ev": "post", "sl": "s1"}]
+        cases += [
+            {"prefix": _pre + [{"ev": "mine", "to": "", "txs": ["s1"]}, {"ev": "refresh", "w": "w1"}, {"ev": "restore", "w": "w3", "from": "w1"}],
+             "op": {"ev": "scan", "w": "w3", "start": 1, "del": False}, "modes": ["crash", "fail"]},
+            {"prefix": _pre + [{"ev": "cancel", "w": "w1", "id": 2}, {"ev": "mine", "to": "", "txs": ["s1"]}],
+             "op": {"ev": "scan", "w": "w1", "start": 1, "del": False}, "modes": ["crash", "fail"]},
+        ]
         setup = p["setup"]
     log("  crash/fault enumeration of %d (prefix, operation) cases on the real code" % len(cases))
     nd = replay("replay_crash", {"setup": setup, "cases": cases}, prop)
